@@ -20,7 +20,7 @@ func (vc *VC) call(x ssa.Value, c *ssa.CallCommon, st *State, reach string) SV {
 	var key string
 	var callee *ssa.Function
 	if c.IsInvoke() {
-		key = methodKey(c.Method)
+		key = vc.eng.instIfaceKey(c.Method, methodKey(c.Method)) // genkey.go (w-c01)
 		recv := vc.val(c.Value)
 		if s, ok := recv.(Sc); ok && s.S == "Val" {
 			vc.safety("nil", reach, sNot(sEq(s.T, "nilVal")), pos)
@@ -46,7 +46,7 @@ func (vc *VC) call(x ssa.Value, c *ssa.CallCommon, st *State, reach string) SV {
 	for _, a := range c.Args {
 		args = append(args, vc.typedSV(vc.val(a), a.Type())) // w-c04: map-typed arguments usable with has()/m[k] in the callee's contract
 	}
-	con := vc.eng.CS.Contracts[key]
+	con, key := vc.eng.genericContract(key) // genkey.go (w-c01): instances of generic functions use the generic contract
 	n := vc.callN[key]
 	vc.callN[key] = n + 1
 	if con == nil {
